@@ -158,6 +158,42 @@ example :
     getQ s1 2100 = [Ex.A, Ex.A] ∧ balOf (endBlock s1 5 2100).1 Ex.O = 19000000 ∧
     (endBlock s1 5 2100).1.pool = s1.pool - 19000000 := by decide
 
+/-! ## A waiting entry that outlives its record (counterexample to "only on its own request")
+
+`leaves_staked_only_via` is about the *state*: a node leaves the staked state only if its address is in the
+waiting set at a session end.  As a statement about *causes* it fails: the waiting set may still hold the
+address of an earlier record (C21 `waiting_dangling_reachable`: forced unstake of a node that is already
+unstaking, paid out before the next session end), and `handleStake` does not look at the waiting set. -/
+
+/-- a node is slashed below the minimum (jailed + waiting), released at the session end 4, slashed again while
+unstaking (waiting again), paid out and deleted at the end of block 5; it stakes afresh in block 6, and block 6
+ends a session -/
+def staleEntryOps : List Op :=
+  [.credit Ex.A 50000000, .stake 3 Ex.mA Ex.A, .burn Ex.A 6000000, .endBlock 4 1000, .burn Ex.A 1, .endBlock 5 2000,
+   .stake 6 Ex.mA Ex.A]
+
+/-- **The code does not satisfy "a staked node begins to unstake only on its own request or by the slashing /
+jailing rules".**  After `staleEntryOps` the record of `A` is a fresh stake (staked, not jailed, above the
+minimum, never asked to unstake, never slashed), created after the previous record of `A` was paid out; the
+waiting set still holds `A` from the previous record; the next session end moves the fresh stake to
+`unstaking`. -/
+theorem stale_waiting_entry_unstakes_fresh_stake :
+    let s5 := run { params := Ex.p0 } (staleEntryOps.take 6)
+    let s6 := run { params := Ex.p0 } staleEntryOps
+    Inv s6 ∧ aget s5.vals Ex.A = none ∧ Ex.A ∈ s5.waiting ∧ balOf s5 Ex.O = 13999999 ∧
+    (∃ v, aget s6.vals Ex.A = some v ∧ v.status = .staked ∧ v.jailed = false ∧ v.tokens = 20000000 ∧
+      s6.params.minStake ≤ v.tokens) ∧
+    (∃ v, aget (endBlock s6 6 3000).1.vals Ex.A = some v ∧ v.status = .unstaking ∧ v.unstTime = 3100) :=
+  ⟨inv_run (inv_empty _) _ (by decide), by decide, by decide, by decide, by decide, by decide⟩
+
+/-- What does hold: a stake message never touches the waiting set, so a stake of an address that is not in the
+waiting set yields a record that is not waiting; with `leaves_staked_only_via` such a record stays staked until
+a begin-unstake request, a burn below the minimum, an unjail attempt below the minimum or the
+jailed-for-too-long rule (`waiting_entry_causes`) puts it there. -/
+theorem fresh_stake_not_waiting_partial (s : State) (h : Int) (m : StakeMsg) (signer : Addr) (a : Addr)
+    (hclean : a ∉ s.waiting) : a ∉ (handleStake s h m signer).1.waiting := by
+  rw [waiting_after_stake]; exact hclean
+
 /-! ## Application half (model `PocketModel/Ledger/Apps.lean`, lemmas `Proofs/Ledger/AppsQueue.lean` of the
 applications package and `Proofs/Ledger/AppsUnstakeC24.lean`) -/
 
